@@ -25,6 +25,9 @@ CHECKS = {
  "C11": dict(tech="static analysis: table comparison (escape table vs RFC 8259, keyword table, array-literal case) on AST + go/types",
    text="Thin: three necessary conditions of 'JSON texts denote themselves' that are tables in the code. \\u decoding, surrogates and number scanning are not decided.",
    ref="DESIGN.md §3 TAB; §4 C11"),
+ "C12": dict(tech="static analysis: scope-structure rules on SSA (SCOPE: fresh child frame per block/call, lexical parent, capture of definition-site env/context, parent link used only by lookup) + W restricted to callable and environment state",
+   text="The structural part of lexical scoping for all programs: frames, parents and captures are wired lexically, bind cannot reach an outer frame, and no per-call datum lives in a shared callable (the context-defaulting defect). Signature matching, placeholder order and chain semantics are value-level and not decided.",
+   ref="DESIGN.md §3 SCOPE, W; §4 C12"),
  "C13": dict(tech="static analysis: who-may-call rule for sort functions under Eval, comparator strictness and slice freshness on go/ssa, merge-step shape (MERGE)",
    text="Stability-relevant structure for all inputs: only stable sorts, strict comparators, fresh slices, and a merge step that prefers the left run on ties. Sampled tests cannot see an unstable sort below 12 items. Ordering/permutation/error clauses as values are not decided.",
    ref="DESIGN.md §3 SORT; §4 C13"),
@@ -34,6 +37,15 @@ CHECKS = {
  "C16": dict(tech="static analysis: unit typing (rune-count vs byte-offset) of integers in the position arithmetic (UNIT) and codec pairing (CODEC)",
    text="Code-point vs byte indexing cannot be mixed in Substring/Pad/positionOfNthRune; encoder/decoder pairs use the same codec; $length is a code-point count. The string laws as equalities are not decided.",
    ref="DESIGN.md §3 UNIT, CODEC; §4 C16"),
+ "C05": dict(tech="static analysis: interprocedural write-target provenance (effect analysis W) over the module call graph under Eval/EvalBytes/String, plus a who-may-call rule for clock and random sources (CLOCK)",
+   text="Repeatability is decided as a frame condition over ALL programs, inputs and histories: no write reachable from Eval targets memory that existed before the call (the AST, package variables, the Expr, shared built-in callables). This is exactly what the once-per-Expr tests cannot observe. One genuine defect remains and is recorded as a known finding (the transform operator writes through patterns that reach outside its copy). Map-iteration-order effects are sanctioned by the property and not decided.",
+   ref="DESIGN.md §3 W, CLOCK; §4 C05"),
+ "C06": dict(tech="static analysis: write-target provenance (W) separately under the Eval, Compile and package-level Register roots; must-hold lock-state dataflow and no-escape rule for the global registry (LOCK); syntactic no-goroutine/unsafe/atomic rule",
+   text="Race freedom for all schedules follows from an effect argument, not from sampling interleavings: concurrent calls of the API share only memory that none of them writes, except the global registry, which is accessed only under its RWMutex and never leaves the critical section. The transform defect (writes to a shared input through $$) is a recorded known finding. Races inside user extensions are out of scope.",
+   ref="DESIGN.md §3 W, LOCK; §4 C06"),
+ "C07": dict(tech="static analysis: write-target provenance (W) for every in-place mutation reachable from Eval, incl. reflect.Set*/SetMapIndex/Append, append, sort, copy; deep-freshness of the transform's pattern context",
+   text="Input immutability as a frame condition for all programs and inputs. Obligation (a) of the transform (pattern evaluated against a deep copy) holds; obligation (b) (mutations stay inside the copy) does not and is the recorded known finding with its failing input. That the transform result equals the specified copy is not decided.",
+   ref="DESIGN.md §3 W; §4 C07"),
  "C09": dict(tech="static analysis: NF dataflow over all of reach(Eval), dispatch exhaustiveness (TAB), explicit-panic inventory, loop-variant classification and recursion inventory (LOOP/REC), dominating guards (GUARD), interface-keyed map rule (HASH)",
    text="The crash and hang classes that are visible in the shape of the code, decided for every program and input over the module call graph under Eval: unresolved reflect accessors, missing dispatch cases, loops without a variant, unguarded integer division / radix / repeat count, unhashable map keys. The remaining panic classes (type assertions, Set on zero Values, nil interfaces, stack depth) are not decided and are listed as such.",
    ref="DESIGN.md §3 NF, TAB, LOOP, GUARD, HASH; §4 C09"),
@@ -43,6 +55,9 @@ CHECKS = {
  "C19": dict(tech="static analysis: table exhaustiveness (TAB), clock-source who-may-call rule and single-instant dataflow (CLOCK), API reachability (GUARD-API), dominating guards (GUARD)",
    text="All 17 date components are dispatched and have defaults; one clock reading per Eval shared by $now/$millis; no 64-bit-nanosecond API on the $toMillis path; no unguarded integer division under $fromMillis. Calendar field values and the inverse law are not decided.",
    ref="DESIGN.md §3 TAB, CLOCK, GUARD; §4 C19"),
+ "C20": dict(tech="static analysis: must-pass-through (dominance) of validation before registry stores (REG), environment assembly order, lock discipline and no-escape of the global registry (LOCK), W under the two registration roots",
+   text="Registration-time validation and registry visibility for all registration histories: entries are validated before they are stored, an Expr holds a per-key copy of the global registry taken under the lock at Compile time, method-level registration writes only the receiver's registry. The argument-conversion relation is value-level and not decided.",
+   ref="DESIGN.md §3 REG, LOCK, W; §4 C20"),
 }
 
 NA = {
